@@ -235,7 +235,7 @@ func modToPrintf(s string) (string, int64, string) {
 		return "", 0, "bad base in $GENERATE"
 	}
 
-	offset, err := strconv.ParseInt(offStr, 10, 64)
+	offset, err := strconv.ParseInt(offStr, 10, 32)
 	if err != nil {
 		return "", 0, "bad offset in $GENERATE"
 	}
